@@ -173,6 +173,28 @@ M4 = {
  "C20G": ("C20", "PauseCrossChains ignores ErrAlreadySet from the batch loop (which stops at the first failure)", "batch in which an id paused before precedes new ids"),
  "C20H": ("C20", "same shape as C08B: pauseCrossChains is a silent no-op while the protocol is paused", "pause protocol, pause ids, unpause protocol, transfer"),
 }
+M5 = {
+ "C01I": ("C01", "same shape as C02E / C05E / C06G (independently written): Hyperlane forwards DestinationAmount - max_fee when the max fee is in the transferred denom", "Hyperlane payload with a positive max_fee in the transferred denomination and hooks that charge less"),
+ "C02I": ("C02", "same shape as C01D (independently written): DispatchPayload runs forwarding + statistics on a CacheContext that is dropped when UpdateStats fails", "a route whose statistics cannot be updated (count at 2^64-1 or totals near 2^256-1, from genesis or a long history), then a transfer"),
+ "C03I": ("C03", "same shape as C01D / C02I (independently written): forwarding on a CacheContext written only when UpdateStats succeeds", "statistics of the route at the representation limit; fees of the pre-actions are kept, the funds never leave"),
+ "C04I": ("C04", "MergeFeesInfo: fee entries of the same type paying the same recipient are merged before the computation; basis points are summed", "the same recipient in >= 2 basis-point entries and an amount whose fractional parts carry (A=15000, 1 bps twice pays 3 instead of 2)"),
+ "C05I": ("C05", "HyperlaneController fills a MsgRemoteTransfer kept in a controller field; CustomHookId is set only when the payload names a hook and never cleared", "a Hyperlane payload with custom_hook_id (even refused or reverted), then one without: the second request carries the first packet's hook"),
+ "C06I": ("C06", "validateInitialConditions refuses only a LOWER balance and otherwise overwrites the destination amount with the live module balance", "module balance above the running amount: a fee entry paid to the orbiter account itself, or dust of the denomination a swap produces"),
+ "C07I": ("C07", "ParsePacket refuses packets whose receiver decodes to the dust collector sub-account with a non-sentinel error", "ICS-20 packet (any payload) whose receiver is the orbiter/dust_collector module account: not the orbiter account, yet answered by the middleware"),
+ "C08I": ("C08", "validatePacket runs the pause check on the SOURCE (protocol, counterparty) of the transfer as well", "PauseProtocol(PROTOCOL_IBC) or PauseCrossChains(IBC, [arrival channel]): transfers to unpaused destinations are refused"),
+ "C09I": ("C09", "paused actions become a Map[int32,bool]; unpause stores false instead of removing; the list query and the export iterate over keys", "pause then unpause an action, then the PausedActions query or export / re-import"),
+ "C10I": ("C10", "in-memory mirror (sync.Map) of the paused-action set, updated right after the store write", "authority-signed Pause/UnpauseAction on a context that is discarded, then the same valid message on committed state fails"),
+ "C11I": ("C11", "the dust sweep is skipped when the forwarding protocol is PROTOCOL_INTERNAL", "internal route while the orbiter account holds any amount of the transferred denomination: every such transfer is refused"),
+ "C12I": ("C12", "in-memory write-through map of the last counter per route; updateDispatchedCounts reads the store only on a miss", "a dispatch that reaches the statistics on a discarded branch (simulation, failed multi-message tx), then a kept transfer on the same route"),
+ "C13I": ("C13", "generic prefix pagination helper strips the encoded protocol prefix from NextKey although the SDK already did", "by-destination listing with next-keys where a later page starts at an entry whose SOURCE protocol equals the listed destination protocol (genesis-only routes)"),
+ "C14I": ("C14", "validateAmount trims white space before converting; ComputeFeesToDistribute converts the raw string and ignores ok: nil Int dereference", "fixed fee amount padded with white space (\" 100\", \"100\\n\", NBSP)"),
+ "C15I": ("C15", "IBCParser.ParsePayload pre-filter: bytes.TrimSpace (Unicode white space) and first/last byte must be { }", "valid orbiter memo padded with VT, FF, NEL, NBSP, U+2028, U+3000: not a JSON document, yet accepted"),
+ "C16I": ("C16", "same shape as C01I / C02E (independently written; transfer attributes left untouched so precondition and statistics still see the full amount)", "Hyperlane route with a positive max_fee in the credited denomination"),
+ "C17I": ("C17", "dispatcher genesis validation rejects repeated entries keyed by route only (not route + denom); InitGenesis calls it", "a route that dispatched two denominations, then export: the export fails validation"),
+ "C18I": ("C18", "the size check is applied to passthrough payload + hex-decoded Hyperlane custom_hook_metadata", "Hyperlane payload with custom_hook_metadata whose passthrough is within the limit (e.g. empty, default params)"),
+ "C19I": ("C19", "FeesToDistribute objects from a package-level sync.Pool; the error returns of ComputeFeesToDistribute put the object back without clearing it", "a fee computation that fails midway (fixed fees summing past 2^256 after a positive entry), then an ordinary fee action on the same P before the pool is emptied"),
+ "C20I": ("C20", "process-wide memo (sync.Map) of validated (protocol, id) pairs filled with LoadOrStore before the check", "the same non-canonical pair submitted twice in one process: refused once, accepted afterwards"),
+}
 def fired(path):
     out, kinds = [], {}
     if os.path.exists(path):
@@ -181,7 +203,7 @@ def fired(path):
             if m and m.group(2) == "1":
                 out.append(m.group(1)); kinds[m.group(1)] = m.group(3).strip()
     return out, kinds
-for mid, (prop, change, needs) in list(M2.items()) + list(M3.items()) + list(M4.items()):
+for mid, (prop, change, needs) in list(M2.items()) + list(M3.items()) + list(M4.items()) + list(M5.items()):
     first, _ = fired(f"/verif/seeded/{mid}/result_first.txt")
     M[mid] = (prop, change, needs, first)
 for mid, (prop, change, needs, first) in sorted(M.items()):
@@ -202,8 +224,8 @@ for mid, (prop, change, needs, first) in sorted(M.items()):
         "needs_to_manifest": needs,
         "written_by": "fresh sub-agent given only the property text and a scratch worktree (nothing from /verif)",
         "confirmed": "tools/verify_mutant.sh in the scratch worktree: git apply ok; go build ./... (root and simapp) ok; go test -vet=off -count=1 ./... passes with the change; demonstration test passes on the clean tree and fails with the change",
-        "ran": "tools/run_mutant.sh (git -C /repo apply, bin/check <all 20> quick, git -C /repo checkout -- .)" if mid[-1] in "AB" else "tools/run_mutant_lab.sh: the change applied to a scratch checkout of /repo HEAD wired to a copy of /verif (tools/mutlab.sh), bin/check <all 20> quick there, checkout restored",
-        "round": {"A": 1, "B": 1, "C": 2, "D": 2, "E": 3, "F": 3}.get(mid[-1], 4),
+        "ran": "tools/r5_run.sh -> tools/run_mutant_lab.sh: the change applied to a scratch checkout of /repo HEAD wired to a copy of /verif (tools/mutlab.sh); because of the time limit of round 5 only the check of the property itself and the 2-3 checks of the most closely related properties were run (the list is in tools/r5_run.sh), quick tier, seed 1; checkout restored" if mid[-1] == "I" else "tools/run_mutant.sh (git -C /repo apply, bin/check <all 20> quick, git -C /repo checkout -- .)" if mid[-1] in "AB" else "tools/run_mutant_lab.sh: the change applied to a scratch checkout of /repo HEAD wired to a copy of /verif (tools/mutlab.sh), bin/check <all 20> quick there, checkout restored",
+        "round": {"A": 1, "B": 1, "C": 2, "D": 2, "E": 3, "F": 3, "I": 5}.get(mid[-1], 4),
         "detected_by_first_round": first,
         "detected_by_now": caught,
         "violation_classes_now": kinds,
